@@ -110,7 +110,12 @@ def strategy(tier):
             # start state: the reactor as built from the blueprints, or (1 in 4) that reactor written to a real Database
             # and loaded back, as a restart / snapshot / post-processing run shuffles it (Database.load marks every
             # assembly with lastLocationLabel = Assembly.DATABASE)
-            "start": st.sampled_from(["built", "db-loaded", "built", "built"]),
+            # ... or a copy.deepcopy of the built reactor (a copy has a pool iff the original has)
+            "start": st.sampled_from(["built", "db-loaded", "copied", "built", "built"]),
+            # stationary blocks of every second assembly are made slightly shorter before the program starts (as after an
+            # axial expansion; armi's own test does the same): same index, different top elevation - _transferStationaryBlocks
+            # documents that it warns and still exchanges
+            "unequal": st.sampled_from([False, True]),
             # assemblies (design indices) listed in the sfp grid contents of the blueprint: a pool that has content
             # from the start, whether or not trackAssems is on
             "prepool": st.one_of(st.just([]), st.just([]), st.lists(st.integers(0, 2), min_size=1, max_size=3)),
@@ -612,15 +617,35 @@ def _execute(case, exclude):
         text = _with_pool_contents(rg.render(spec), [spec["designs"][d]["specifier"] for d in prepool])
     circular = bool(case.get("circular", False))
     cs, bp, r = rg.build(spec, {"trackAssems": track, "stationaryBlockFlags": list(flags), "circularRingMode": circular}, text=text)
+    if case.get("unequal", False) and stat_kinds:
+        kinds_at = {(c[0], c[1]): spec["designs"][c[2]]["kinds"] for c in spec["cells"]}
+        shortened = 0
+        for n, a in enumerate(sorted(r.core, key=lambda x: _dist((int(x.spatialLocator.i), int(x.spatialLocator.j))))):
+            if n % 2 == 0:
+                continue
+            kinds = kinds_at[(int(a.spatialLocator.i), int(a.spatialLocator.j))]
+            for b, kind in zip(list(a), kinds):
+                if kind in stat_kinds:
+                    b.setHeight(b.getHeight() * 0.999)
+                    shortened += 1
+            a.calculateZCoords()
+        if shortened:
+            out.label("stationary-heights:unequal")
     start = case.get("start", "built")
     if start == "db-loaded":
         r = _through_database(cs, bp, r)
+    elif start == "copied":
+        r = copy.deepcopy(r)
     out.label("start:" + start)
     if no_pool:
         r.excore["sfp"] = None
         del r.excore["sfp"]
     core = r.core
     sfp = r.excore.get("sfp")
+    if sfp is None and not no_pool:
+        # every reactor of reactors.factory has a pool (explicit or default); Database.load and copy.deepcopy must keep it
+        out.fail("inventory/reactor-lost-its-spent-fuel-pool", "start state %r: r.excore.get('sfp') is None, excore holds %r" % (start, sorted(r.excore)))
+        return out
     fh = fuelHandlers.FuelHandler(_Operator(r, cs))
     nogrid = track and sfp is not None and sfp.spatialGrid is None
 
@@ -650,7 +675,7 @@ def _execute(case, exclude):
         else:
             init_ctx = {"lookup-by-name/assembly-not-found": SIG_POOLNAMES, "lookup-by-name/block-not-found": SIG_POOLNAMES}
             known_shape = True
-    for t in bp.assemblies.values():
+    for t in r.blueprints.assemblies.values():
         M.templates.add(id(t))
         M.templates.update(id(b) for b in t)
     if len(M.where) != len(spec["cells"]):
@@ -1119,7 +1144,8 @@ PARTS = [
     Part("programs", execute, strategy=strategy, budget={"quick": 360, "thorough": 12000}, procs={"quick": 6, "thorough": 16},
          rule="Hypothesis: blueprint-built core (hex third/full flats/corners up, Cartesian full/quarter, 2-4 rings, holes, 1-3 designs of "
               "1-3 blocks, grid plates/reflectors at any axial position or forced to the bottom / bottom+top, SFP explicit or default) x "
-              "start state {as built, 1 in 4: written to a Database and loaded back} x {pool present, 1 in 5: deleted from the reactor} x "
+              "start state {as built, written to a Database and loaded back, copy.deepcopy of the built reactor} x stationary blocks of "
+              "equal / slightly unequal height x {pool present, 1 in 5: deleted from the reactor} x "
               "trackAssems on/off x stationaryBlockFlags {none, grid plate, grid plate+reflector} x program of <= 14 operations drawn "
               "from a random subset of {swapAssemblies, swapCascade(2-5 members), dischargeSwap(fresh|pool), Core.add(fresh|pool|purged "
               "put back; locator of the core grid / of an equal grid / detached / none) at a "
